@@ -367,6 +367,11 @@ func c08Open(f *c08File, kind string) (seekReader, []string, error) {
 		rows := parquet.MultiRowGroup(pf.RowGroups()...).Rows()
 		return &rowsReader{r: rows, c: rows}, streamOf(f.prows), nil
 	case kind == "MergeRowGroups.Rows(forward-only)":
+		if strings.Contains(f.desc, "snappy") || strings.Contains(f.desc, "rbuf16") {
+			// the merge reads its inputs through the readers exercised above: 16 of the
+			// 64 files (page version x page index x row groups x read mode) are enough
+			return nil, nil, nil
+		}
 		b := parquet.NewGenericBuffer[SRow]()
 		b.Write([]SRow{f.rows[3], f.rows[7]})
 		sorting := parquet.SortingRowGroupConfig(parquet.SortingColumns(parquet.Ascending("ID")))
